@@ -145,7 +145,7 @@ fn main() {
     let fcfg = Arc::new(files_engine::Cfg {
         seed: args.seed,
         max_unsynced: tier.pick(2, 4),
-        unsynced_bytes: tier.pick(160, 240),
+        unsynced_bytes: tier.pick(160, 200),
         crash_phases: tier.pick(1, 2),
         n_ops: tier.pick(28, 40),
     });
@@ -347,13 +347,13 @@ fn main() {
     report.require("files.crash_class.data_ahead", q(1000, 40_000));
     report.require("files.crash_class.data_ahead_rollover", q(200, 8000));
     report.require("files.crash_states.partial_index_entry", q(10_000, 400_000));
-    report.require("freezer.histories", q(30, 350));
-    report.require("freezer.op.freeze_block", q(50, 600));
-    report.require("freezer.op.reopen", q(20, 300));
-    report.require("freezer.op.truncate.effective", q(10, 150));
+    report.require("freezer.histories", q(30, 200));
+    report.require("freezer.op.freeze_block", q(50, 400));
+    report.require("freezer.op.reopen", q(20, 200));
+    report.require("freezer.op.truncate.effective", q(10, 100));
     report.require("freezer.tip_checks", q(1000, 20_000));
     report.require("freezer.crash_states", q(5000, 100_000));
-    report.require("freezer.crash_plans_with_rollover", q(10, 100));
+    report.require("freezer.crash_plans_with_rollover", q(10, 60));
     report.require("freezer.crash_class.rollover_head_cut", q(100, 2000));
 
     drop(scratch);
